@@ -312,7 +312,14 @@ func c11Run(p c11Plan) (class, detail, tree string, inside bool) {
 	}
 	// a proposal for the interrupted inbound message is rejected only if a complete copy is stored
 	check := func(mid string, size int) (string, string) {
-		ans := h2.GetInboundAnswer(*fbb.NewProposal(mid, "t", fbb.Wl2kProposal, []byte("x")))
+		prop := *fbb.NewProposal(mid, "t", fbb.Wl2kProposal, []byte("x"))
+		ans := h2.GetInboundAnswer(prop)
+		// a Session asks through the batched method if the handler has one
+		if b, ok := any(h2).(fbb.BatchedInboundHandler); ok && ans != fbb.Reject {
+			if as := b.GetInboundAnswers([]fbb.Proposal{prop}); len(as) == 1 {
+				ans = as[0]
+			}
+		}
 		if ans == fbb.Reject {
 			got, ok := after["in"][mid]
 			want := c11Msg(mid, size, false)
